@@ -105,6 +105,18 @@ def legacy_reply_program():
     return Contract(methods=tuple(ms), entry_points="")
 
 
+def prefix_program():
+    """Message names of one part that are proper prefixes of names of another part of the same kind,
+    the longer-named part listed first (routing must compare whole names)."""
+    a = (Arg("a", "u32"),)
+    cm, m0, m1 = [Method("instantiate", "inst", ())], [], []
+    for k, p in (("exec", ""), ("query", "q_"), ("sudo", "s_")):
+        cm += [Method(k, p + "mint_batch_all", a), Method(k, p + "tr", a)]
+        m0 += [Method(k, p + "mint_batch", a), Method(k, p + "a_b", a), Method(k, p + "tr_x", a)]
+        m1 += [Method(k, p + "mint", a), Method(k, p + "a", a), Method(k, p + "t", a)]
+    return Contract(methods=tuple(cm), interfaces=(iface(0, m0), iface(1, m1, custom=None)), entry_points="")
+
+
 def kinds_program(ckinds, ikinds, with_migrate):
     ms = [Method("instantiate", "inst", (Arg("a", "u32"),))]
     if with_migrate:
@@ -140,6 +152,7 @@ def programs(tier):
     out.append(("psame0", samename_program(), {"samename"}))
     out.append(("preply0", reply_program(), {"reply"}))
     out.append(("plegacy0", legacy_reply_program(), {"reply", "legacy"}))
+    out.append(("pprefix0", prefix_program(), {"parts", "prefix"}))
     for n in (0, 1, 2):
         out.append(("pparts%d" % n, parts_program(n), {"parts"}))
     KS = ["exec", "query", "sudo"]
